@@ -1,6 +1,7 @@
 package main
 
 import (
+	"bytes"
 	"context"
 	"errors"
 	"fmt"
@@ -471,7 +472,9 @@ func runServerScenario(skipVerify bool, secretSpec string, cmds []string, w *os.
 				parts := strings.SplitN(w, ":", 2)
 				raw := unhx(parts[1])
 				sec := secrets[l.tasks[t].peer]
-				auth := radius.IsAuthenticResponse(raw, reqWire[t], sec)
+				// checked against RFC 2865 §3 by hand, not through the library's own predicate
+				auth := len(raw) >= 20 && len(reqWire[t]) >= 20 && len(sec) > 0 &&
+					bytes.Equal(md5sum(raw[:4], reqWire[t][4:20], raw[20:], sec), raw[4:20])
 				o += fmt.Sprintf(":%s:conn%d:auth=%v:code=%d", parts[0], taskConn[t], auth, raw[0])
 			}
 			ol.add(o)
